@@ -209,7 +209,14 @@ def main(argv):
         rng0 = vsim.Rng(seed, "c08-programs")
         rng0.shuffle(cs)
         cands = [("hello.as", worlds.HELLO, "corpus")]
-        for n, pth, sz in cs[:nprog * 5]:
+        # workload hint: corpus programs known to print several diagnostics (validated per run)
+        try:
+            talk_names = json.load(open(os.path.join(vsim.VERIF, "orch", "talkative.json")))["programs"]
+        except (OSError, ValueError, KeyError):
+            talk_names = []
+        talk_pick = set(rng0.sample(talk_names, min(len(talk_names), nprog // 2 if tier == "quick" else len(talk_names))))
+        cs = [c for c in cs if c[0] in talk_pick] + [c for c in cs if c[0] not in talk_pick]
+        for n, pth, sz in cs[:nprog * 3]:
             cands.append((n, open(pth, "rb").read(), "corpus"))
         for g in range(ngen):
             src = progen.gen_program(vsim.Rng(seed, "c08-gen", g), size="small", force=("tokens",) if g % 2 == 0 else ())
@@ -252,6 +259,26 @@ def main(argv):
             cases.append((pi, {}))					# repetition of the reference plan
             for _ in range(nplans - 1):
                 cases.append((pi, gen_perturbation(rng, pr["nalloc"])))
+        # wide and shallow: many more corpus programs under a few cheap plans each (collector
+        # mode, fill pattern, layout; no forced schedule) - rare layout-dependent diagnostics
+        # show on few programs, so breadth matters as much as depth
+        nwide = 220 if tier == "quick" else 600
+        have = set(pr["name"] for pr in progs)
+        wide = [(n, open(pth, "rb").read()) for n, pth, sz in cs if n not in have][:nwide]
+        wopts = ["-Q2", "-Fao", "-Ffm", "-Fc"]
+        wrefs = vsim.pmap(lambda w_: run_compile(binfo, scratch, {w_[0]: w_[1]}, wopts, [w_[0]], {}, cpu=40), wide)
+        nwide_kept = 0
+        for (n, text), ref in zip(wide, wrefs):
+            if ref.timeout or ref.rc is None or worlds.fault_class(ref) or ref.wall > 8 or b"Storage allocation error" in ref.out + ref.err:
+                continue
+            nwide_kept += 1
+            progs.append({"name": n, "text": text, "origin": "corpus-wide", "opts": wopts, "ref": ref, "nalloc": 1})
+            rng = vsim.Rng(seed, "c08-wide", n)
+            pi = len(progs) - 1
+            cheap = [{"gcopt": "-Wno-gc"}, {"wash": "wash on %s %s" % rng.choice(FILLS), "heapbase": rng.choice(BASES)},
+                     {"gcenv": {"GC_FRUGAL": "1"}, "stackpad": rng.range(1, 65536), "envpad": rng.range(1, 4096)}]
+            for q in rng.sample(cheap, 2 if tier == "quick" else 3):
+                cases.append((pi, q))
         budget = checklib.Budget(400 if tier == "quick" else 2400)
         results = []
         B = 64
@@ -264,7 +291,7 @@ def main(argv):
 
         # ---- batching: several files in one invocation vs one at a time -----------
         batch_cases = []
-        okprogs = [i for i, pr in enumerate(progs) if pr["ref"].rc == 0]
+        okprogs = [i for i, pr in enumerate(progs) if pr["ref"].rc == 0 and pr["origin"] != "corpus-wide"]
         rngb = vsim.Rng(seed, "c08-batch")
         nb = 10 if tier == "quick" else 120
         bopts = ["-Q2", "-Fao", "-Ffm", "-Fc", "-Flsp"]
@@ -390,7 +417,7 @@ def main(argv):
             "distinct_nontrivial": len(distinct) + len(batch_results),
             "rule": "per program (corpus sample validated on the current tree + generated programs) one repetition of the reference plan and seeded perturbed plans over {collection schedule, heap base, stack pad, environment size and junk variables, fill pattern, clock, pid, working-directory depth, GC_* tuning}; plus batched-vs-single invocations; distinct = distinct (program, perturbation); non-trivial = at least one dimension differs from the reference",
             "samples": [{"program": progs[c[0]]["name"], "opts": progs[c[0]]["opts"], "perturbation": c[1]} for c in cases[1:done:max(1, done // 5)]][:6],
-            "programs": len(progs), "program_origins": {"corpus": ncorpus, "generated": sum(1 for p in progs if p["origin"] == "generated")},
+            "programs": len(progs), "program_origins": {"corpus": ncorpus, "generated": sum(1 for p in progs if p["origin"] == "generated"), "corpus_wide_shallow": nwide_kept},
             "programs_rejected_with_same_diagnostics_kept": sum(1 for p in progs if p["ref"].rc != 0),
             "programs_dropped_by_reference_validation": dropped,
             "worlds_planned": len(cases), "worlds_run": done, "batch_groups": len(batch_results),
